@@ -277,7 +277,9 @@ func GenComment(t *rapid.T, p *Profile, pools *Pools, allowTags bool) *m.Comment
 		if allowTags && rapid.Bool().Draw(t, "istag") {
 			it := m.CItem{Tag: true, Name: rapid.SampledFrom(pools.TagNames).Draw(t, "tn"), Value: rapid.SampledFrom(vals).Draw(t, "tv")}
 			if !p.off("tag.text-before") && rapid.IntRange(0, 4).Draw(t, "tagpre") == 0 {
-				it.Pre = rapid.SampledFrom([]string{"paid by card ", "see ", "x "}).Draw(t, "tagprev")
+				it.Pre = rapid.SampledFrom([]string{"paid by card ", "see ", "x ", "%s plan ", "x%ss and ", "%s "}).Draw(t, "tagprev")
+				// the text before a tag may spell the tag's name without being the tag
+				it.Pre = strings.Replace(it.Pre, "%s", it.Name, 1)
 			}
 			c.Items = append(c.Items, it)
 		} else {
@@ -558,6 +560,12 @@ func GenDirective(t *rapid.T, p *Profile, pools *Pools, year *int, o JournalOpts
 		return &m.Directive{Kind: "commodity", Sym: rapid.SampledFrom(pools.Syms).Draw(t, "dsym")}
 	case "include":
 		paths := []string{"other.journal", "sub/2024.journal", "./x.journal", "/abs/path/file.journal", "~/home.journal", "*.journal", "sub/**/*.journal", "f[12]?.journal", "dir with space/a.journal", "2024 budget.journal", "01 Jan.journal", "MY FILES/x.journal", "A 1.journal"}
+		if !p.off("text.nonascii") {
+			paths = append(paths, "журнал.journal", "Buchführung/2024.journal", "é.journal")
+			if !p.off("text.nonbmp") {
+				paths = append(paths, "😀/a.journal")
+			}
+		}
 		return &m.Directive{Kind: "include", Path: rapid.SampledFrom(paths).Draw(t, "ipath")}
 	case "P":
 		syms := pools.Syms
